@@ -52,6 +52,8 @@ func TestVerifServerACDeps(t *testing.T) {
 		{dirs: 1, rootFiles: 1, children: 1, childFiles: 1}, {files: 1, dirs: 1, rootFiles: 1, children: 2, childFiles: 1, stdout: true},
 		{files: 1, emptyRef: true}, {dirs: 1, rootFiles: 1, nilNode: true}, {stdout: true, stderr: true}, {},
 		{dirs: 2, rootFiles: 1, children: 1, childFiles: 1},
+		// trees whose root directory lists no files of its own
+		{dirs: 1, children: 1, childFiles: 1}, {dirs: 1, children: 2, childFiles: 2}, {dirs: 1}, {files: 1, dirs: 1, children: 1, childFiles: 1},
 	}
 	for si, sh := range shapes {
 		// count the referenced blobs of this shape to enumerate absent subsets
@@ -101,7 +103,8 @@ func TestVerifServerACDeps(t *testing.T) {
 				ar.OutputFiles = append(ar.OutputFiles, &pb.OutputFile{Path: "empty", Digest: &pb.Digest{Hash: emptySha256, SizeBytes: 0}})
 			}
 			for di := 0; di < sh.dirs; di++ {
-				tree := &pb.Tree{Root: &pb.Directory{}}
+				// a symlink with a fresh name makes every tree blob unique, also the ones without files
+				tree := &pb.Tree{Root: &pb.Directory{Symlinks: []*pb.SymlinkNode{{Name: fmt.Sprintf("uniq-%x", rng.Bytes(8)), Target: "t"}}}}
 				var rootS, childS []string
 				for i := 0; i < sh.rootFiles; i++ {
 					d := ref("treefile", rng.Bytes(25), false)
@@ -266,7 +269,7 @@ func TestVerifServerACDeps(t *testing.T) {
 			}
 		}
 	}
-	rec.Set("rule", "11 ActionResult shapes (files, inline files, trees with root/child files, nil file digests, empty-blob refs, stdout/stderr) x every subset of absent referenced blobs (sampled above 16/256) x optional size mismatch; fresh blobs per case")
+	rec.Set("rule", "15 ActionResult shapes (files, inline files, trees with root/child files, trees whose root lists no files, the empty tree, nil file digests, empty-blob refs, stdout/stderr) x every subset of absent referenced blobs (sampled above 16/256) x optional size mismatch; fresh blobs per case")
 }
 
 func b2n(b bool) int {
